@@ -120,6 +120,13 @@ Theorem C03_unread_at_body_end_closes : forall c s,
   let s' := body_end c s in finished s' = true /\ (linger s' || shutdown s') = true /\ dstate s' = SNone.
 Proof. exact body_end_unread_closes. Qed.
 
+(* ... and at the end of the body of an ERROR response (handler returned Err with a non-empty body:
+   State::SendErrorPayload, a separate arm of poll_response transcribed separately) *)
+Theorem C03_unread_at_error_body_end_closes : forall c s,
+  close_unread s = true -> messages s = [] ->
+  let s' := body_end_err c s in finished s' = true /\ (linger s' || shutdown s') = true /\ dstate s' = SNone.
+Proof. exact body_end_err_unread_closes. Qed.
+
 (* ---- LINGER drops what it reads --------------------------------------------------------------- *)
 Theorem C03_linger_discards : forall c wb s,
   let s' := poll_linger c wb s in
